@@ -73,6 +73,7 @@ type ContractSet struct {
 	Lemmas    []*Lemma
 	Files     []string
 	Warnings  []string
+	GhostVars []GhostDecl
 }
 
 type TypeInv struct {
@@ -358,6 +359,17 @@ func (cs *ContractSet) parseContractText(file, pkgName string, text string) erro
 			} else {
 				cur.HeldPost = append(cur.HeldPost, HeldSpec{e, mode})
 			}
+		case "ghostvar":
+			// ghostvar NAME int|bool : a global ghost variable (thread-local specification state)
+			f := strings.Fields(rest)
+			if len(f) < 1 {
+				return fmt.Errorf("%s:%d: bad ghostvar", file, ln+1)
+			}
+			sort := "int"
+			if len(f) > 1 {
+				sort = f[1]
+			}
+			cs.GhostVars = append(cs.GhostVars, GhostDecl{f[0], sort})
 		case "typeinv":
 			// typeinv nonnil btpb.RowFilter_Chain_.Chain
 			f := strings.Fields(rest)
